@@ -199,6 +199,7 @@ pub fn observe_scope(w: &mut World, pfx: &[String], uris: &[String]) -> J {
         unres.dedup();
         // qualified names: full_name, name_ref, node_name_ref (element and attribute nodes)
         let (mut fnm, mut nref, mut nnref) = (json!(["na", "", ""]), json!(["na", "", ""]), json!(["na", "", ""]));
+        let mut nview = json!({"has": false, "full": "", "ns": "", "unpref": false, "o": ["", "", "", ""], "indef": false, "eqpx": false, "back": false});
         if let Some(name) = x.node_name(h) {
             if x.is_element(h) || x.is_attribute_node(h) {
                 fnm = match guard(|| x.full_name(h, name).map_err(|_| ()), Err(())) {
@@ -211,6 +212,19 @@ pub fn observe_scope(w: &mut World, pfx: &[String], uris: &[String]) -> J {
                 nref = match guard(|| x.name_ref(name, h).map_err(|_| xot::Error::NotElement(h)), Err(xot::Error::NotElement(h))) {
                     Ok(r) => {
                         use xot::xmlname::NameStrInfo;
+                        // the other views of the same name: the strings of the reference itself, and its owned copy
+                        nview = guard(
+                            || {
+                                let o = r.to_owned();
+                                let back = o.maybe_to_ref(x);
+                                let other = xot::xmlname::OwnedName::new(o.local_name().to_string(), o.namespace().to_string(), "zz9".to_string());
+                                json!({"has": true, "full": r.full_name(), "ns": r.namespace(), "unpref": r.has_unprefixed_namespace(),
+                                       "o": [o.prefix(), o.local_name(), o.namespace(), o.full_name()], "indef": o.in_default_namespace(),
+                                       "eqpx": o == other,
+                                       "back": match back { Some(b) => b.name_id() == r.name_id() && b.prefix_id() == r.prefix_id(), None => false }})
+                            },
+                            json!({"has": true, "full": "?panic", "ns": "?panic", "unpref": false, "o": ["?", "?", "?", "?"], "indef": false, "eqpx": false, "back": false}),
+                        );
                         json!(["ok", r.prefix(), r.local_name()])
                     }
                     Err(_) => json!(["err", "", ""]),
@@ -226,7 +240,7 @@ pub fn observe_scope(w: &mut World, pfx: &[String], uris: &[String]) -> J {
             }
         }
         out.push(json!({"live": true, "inscope": inscope, "nfp": nfp, "pfn": pfn, "ipd": ipd, "inh": inh, "unres": unres,
-                         "fnm": fnm, "nref": nref, "nnref": nnref}));
+                         "fnm": fnm, "nref": nref, "nnref": nnref, "nview": nview}));
     }
     J::Array(out)
 }
